@@ -49,3 +49,6 @@ add('C18', 'exploration', 'exhaustive enumeration of the full product head keywo
 add('C17', 'model_checking', 'explicit-state BFS to fixpoint over the product (reference push-down recogniser x real StatementSplitter), every transition executed on the real process(); every model trace replayed through split()/parse()',
     'All reachable states of the product of a reference push-down recogniser of the procedural grammar (stack depth <= 3 quick / 4 thorough) with the real StatementSplitter attribute tuple are explored to fixpoint; each transition feeds the real lexer tokens of one event through the real process(); invariant on every semicolon edge: real split decision == reference. The BFS-shortest trace to every product state, completed to a whole script, is rendered to SQL (two spellings) and run through sqlparse.split/parse (traces_validated_against_impl).',
     'Trusted: CPython; the procedural grammar as written in vlib/splitmodel.py; conditions/headers/simple statements abstracted to name tokens; states whose real counters drift beyond the bound are checked by their shortest completion instead of being expanded.', 'DESIGN.md 4/C17')
+add('C05', 'exploration', 'exhaustive enumeration of scripts (seed pairs/triples x separator fillers), of opaque-region bodies (all bodies up to a length over a body alphabet) and of the plain-statement product automaton',
+    'Every ordered pair (and triple of short ones) of the seed statements under every separator/final filler; every statement within one deviation of a seed as first/second statement; 8 region kinds x every body of <= 3-4 fragments lacking the terminator x 8 host positions with the expected pieces known by construction; plus all reachable states of the (reference x real splitter) product restricted to plain statements with ";" inside parentheses. Exhaustive within the bounds.',
+    _E2, 'DESIGN.md 4/C05')
